@@ -19,8 +19,9 @@ def cfg(nlines, ncorr, inv, live=True, old_resend=False):
 
 
 def _job(args):
-    logging.disable(logging.CRITICAL)
     from . import serial_rec
+    from .common import set_logging
+    set_logging(len(args) > 7 and bool(args[7]))
     lines, corrupt, holds = args[:3]
     pauses = args[3] if len(args) > 3 else ()
     instant = bool(args[4]) if len(args) > 4 else False
@@ -330,9 +331,10 @@ class P(flow.Plan):
                 nxt = [job_lines(rng, rng.randint(1, 5)) for _ in range(rng.choice([1, 1, 2]))]
                 if (i // 7) % 2 == 0:
                     copen = [2]
-            specs.append((lines, corrupt, holds, pauses, instant, nxt, copen))
+            verbose = i % 6 == 2            # DEBUG logging enabled process-wide (added after seed C18g)
+            specs.append((lines, corrupt, holds, pauses, instant, nxt, copen, verbose))
             inputs.append({"lines": lines, "corrupt": corrupt, "holds": holds, "pauses": pauses, "instant": instant,
-                           "next_jobs": nxt, "corrupt_open": copen})
+                           "next_jobs": nxt, "corrupt_open": copen, "verbose": verbose})
         traces = run_jobs(specs)
         for t in traces:
             t["meta"]["driver"] = "random"
@@ -341,7 +343,7 @@ class P(flow.Plan):
     def replay(self, payload):
         inp = payload["input"]
         return run_jobs([(inp["lines"], inp["corrupt"], inp["holds"], inp.get("pauses", []), inp.get("instant", False),
-                          inp.get("next_jobs", []), inp.get("corrupt_open", []))], par=1), [inp]
+                          inp.get("next_jobs", []), inp.get("corrupt_open", []), inp.get("verbose", False))], par=1), [inp]
 
     def sample(self, t):
         return {"meta": t["meta"], "raw_job": t["raw"], "ev": [{"k": e["k"], "text": bytes(e["text"]).decode("ascii", "replace"), "bad": e["bad"]} for e in t["ev"][:14]]}
